@@ -58,6 +58,10 @@ CHECKS = {
    text="{5 pause points} x {backend reset, close, host removed, hosts replaced, client closes} x {simple, MGET child, ASK-redirected}: the held request must still be answered after release (lost = unanswered after 3 s while fresh canaries through the same backends succeed and two goroutine dumps show a session writer in rawRequest.Wait); > 1024 outstanding requests against a node that stopped reading and then dies are all answered; random fault stress on plain and -race builds must leave no connection with an unanswered request and must not kill the process (double completion = close of closed channel).",
    note="Trusted: pause-point placement (between critical sections only), the canary/stuck-detector verdict. Orderings not in the script list are only sampled by the stress engine.",
    ref="DESIGN.md section 4 C02"),
+ "C17": dict(level="exploration", technique="frame oracle over a unix stream pair (round trip; declared-vs-actual length table; panic capture) and request/acknowledgement/call-log sequence oracle against the real restarter with a recording Instance, dropped-child recovery, hostile-then-valid frames; monitored child",
+   text="Every type x payload length round-trips exactly; truncated frames are rejected, frames with trailing bytes are never read as another message, nothing panics; for all request sequences up to length 3 (4 thorough) over known and unknown types the reply type matches and the Instance call log equals the requested steps once and in order (terminate: reply, then SIGTERM); a child dropped at 7 points never prevents a later full hand-over; malformed frames never trigger a step nor alter later valid frames.",
+   note="Trusted: lock-step driver (the protocol is a synchronous RPC on a stream socket); SIGTERM replaced by a recorded call. The two-process smoke test with the real binary is not built.",
+   ref="DESIGN.md section 4 C17"),
 }
 NOT_BUILT = "check not built yet in this session (design in DESIGN.md section 4)"
 
